@@ -11,7 +11,7 @@ from .. import kf
 ID = "C02"
 NEEDS_MODEL = True
 LEVEL = "exploration"
-N = {"quick": 1280, "thorough": 16000}
+N = {"quick": 1280, "thorough": 40000}
 FORCE = [None, None, None, "three-level", "nway-above-uniform", "contracted-outer",
          "size1", "size-big"]
 
